@@ -257,6 +257,16 @@ def check_diagram_level(ctx):
     shape.match(ctx, "R14.3", MON + ".Diagram.lambdify", ret_expr(fn.body),
                 "lambda *xs: self.id(self.dom).then(*(self.id(left) @ box.lambdify(*symbols, **kwargs)(*xs) @ self.id(right) for left, box, right in self.layers))", {},
                 mod=MON, node=fn, sig="diagram-lambdify")
+    # substitution into nested data: every leaf, the structure kept
+    rm = m.func(CAT + ".rmap")
+    ctx.analysed(CAT + ".rmap", CAT + ".rsubs")
+    a_ = [x.arg for x in rm.args.args]
+    shape.match_stmts(ctx, "R14.3", CAT + ".rmap", [s for s in rm.body if not (isinstance(s, ast.Expr) and isinstance(s.value, ast.Constant))],
+                      ["if isinstance(data, Mapping):\n    return {key: rmap(func, value) for key, value in data.items()}", "if isinstance(data, Iterable):\n    return type(data)([rmap(func, elem) for elem in data])", "return func(data)"],
+                      dict(zip(a_, ("func", "data"))), mod=CAT, node=rm, sig="rmap", exact=True, required="mappings value by value under the same keys, other containers element by element in a container of the same type, a leaf through the function")
+    rs = m.func(CAT + ".rsubs")
+    shape.match(ctx, "R14.3", CAT + ".rsubs", ret_expr(rs.body), ["rmap(lambda x: getattr(x, 'subs', lambda *_: x)(*args), data)"], {rs.args.args[0].arg: "data", rs.args.vararg.arg: "args"}, mod=CAT, node=rs, sig="rsubs",
+                required="every leaf that can be substituted into is, with all the arguments; other leaves are kept")
     fn = m.func("discopy.tensor.Tensor.lambdify")
     ctx.analysed("discopy.tensor.Tensor.lambdify")
     lam = next((s.value for s in fn.body if isinstance(s, ast.Assign) and isinstance(s.value, ast.Call) and ast.unparse(s.value.func) == "lambdify"), None)
